@@ -268,15 +268,16 @@ def run_impl(case, rng=None):
         fn = S.bp_estimate if case["bp"] else S.cp_estimate
     res = {"out": None, "exc": None, "objs": None, "cvrs": cvrs}
     try:
-        if case.get("second"):
-            other = case["names"][(case["winner"] + 1) % case["n"]]
-            Rm.compute_raire_assertions(contest, cvrs, other, fn, False, agap=0)
-        if case.get("log"):      # logging on (to a sink; one log line goes to stdout whatever `stream` is)
-            sink = io.StringIO()
-            with contextlib.redirect_stdout(sink):
-                r = Rm.compute_raire_assertions(contest, cvrs, case["names"][case["winner"]], fn, True, stream=sink, agap=0)
-        else:
-            r = Rm.compute_raire_assertions(contest, cvrs, case["names"][case["winner"]], fn, False, agap=0)
+        with C.time_limit(20):      # a change that makes the search loop must not stall the check
+            if case.get("second"):
+                other = case["names"][(case["winner"] + 1) % case["n"]]
+                Rm.compute_raire_assertions(contest, cvrs, other, fn, False, agap=0)
+            if case.get("log"):      # logging on (to a sink; one log line goes to stdout whatever `stream` is)
+                sink = io.StringIO()
+                with contextlib.redirect_stdout(sink):
+                    r = Rm.compute_raire_assertions(contest, cvrs, case["names"][case["winner"]], fn, True, stream=sink, agap=0)
+            else:
+                r = Rm.compute_raire_assertions(contest, cvrs, case["names"][case["winner"]], fn, False, agap=0)
         res["objs"] = r
         res["out"] = canon(r, case["names"])
         if res["out"] is None:
